@@ -552,6 +552,11 @@ func (w *World) Deploy(key string, a *Artifact, data any) *Deployed {
 	return d
 }
 
+// stateContractHash predicts the hash a contract gets when `sender` deploys it.
+func stateContractHash(sender util.Uint160, a *Artifact) util.Uint160 {
+	return state.CreateContractHash(sender, a.NEF.Checksum, a.Manifest.Name)
+}
+
 // TryDeploy deploys with the given signers.
 func (w *World) TryDeploy(key string, a *Artifact, data any, signers []Signer) (*Deployed, *state.AppExecResult) {
 	tx := w.CallTx(signers, -1, w.Mgmt, "deploy", a.NEFBytes, a.ManBytes, data)
